@@ -703,20 +703,10 @@ func (ctx *RenderContext) EvaluateExpression(node Node) (interface{}, error) {
 		return n.value, nil
 
 	case *VariableNode:
-		// A variable of the template (context entry, set, loop variable, macro
-		// parameter) wins over a macro of the same name
-		for c := ctx; c != nil; c = c.parent {
-			if value, ok := c.context[n.name]; ok {
-				return value, nil
-			}
-		}
-
-		// Check if it's a macro
-		if macro, ok := ctx.GetMacro(n.name); ok {
-			return macro, nil
-		}
-
-		// Otherwise, look up variable
+		// A name used as a variable means the variable (context entry, set, loop
+		// variable, macro parameter, global). Macros are a namespace of their own,
+		// reached by calling them: a name that only a macro carries is an undefined
+		// variable, not the macro node
 		return ctx.GetVariable(n.name)
 
 	case *GetAttrNode:
